@@ -15,7 +15,7 @@ pub enum Op {
 pub enum Res { Unit, Node(u32), Bool(bool), OptVal(Option<GV>), AddAttr(Option<GV>), NoEdge, Attrs(Vec<(String, GV)>), Nodes(Vec<u32>), Count(usize), Skipped }
 
 const NAMES: &[&str] = &["a", "b", "name", "k1", "k2", "ty-pe", "x_y"];
-pub const SRC: &str = "x = f(1, y)\npass\n";
+pub const SRC: &str = "x = f(1, y)\nq = a.b.c + g()() + 1\npass\n";
 
 impl Op {
     pub fn coq(&self) -> String {
@@ -114,6 +114,22 @@ pub fn gen_ops(rng: &mut Rng, len: usize, n_syn: usize) -> Vec<Op> {
         let nd = |rng: &mut Rng| -> u32 { if nodes == 0 { 0 } else if rng.chance(3) { nodes + rng.below(2) as u32 } else { rng.below(nodes as usize) as u32 } };
         let src = |rng: &mut Rng| -> u32 { if hub_mode && nodes > 0 && rng.chance(60) { 0 } else { nd(rng) } };
         let k = rng.below(100);
+        // focused sequence: two DIFFERENT syntax nodes of the same kind starting at the same position assigned to one
+        // attribute (a conflict), and both in one set (two elements)
+        if nodes >= 1 && rng.chance(6) {
+            let pairs = { let t = parse_python(SRC); let info = TreeInfo::new(&t, SRC); same_start_pairs(&info) };
+            if !pairs.is_empty() {
+                let (i, j) = *rng.pick(&pairs);
+                let n = nd(rng);
+                let (x, y) = if rng.chance(50) { (i, j) } else { (j, i) };
+                ops.push(Op::NodeAttrAdd(n, "synpair".into(), GV::Syn(x)));
+                ops.push(Op::NodeAttrAdd(n, "synpair".into(), GV::Syn(y)));
+                ops.push(Op::NodeAttrGet(n, "synpair".into()));
+                ops.push(Op::NodeAttrAdd(n, "synlist".into(), GV::List(vec![GV::Syn(x), GV::Syn(y)])));
+                ops.push(Op::NodeAttrAdd(n, "synlist".into(), GV::List(vec![GV::Syn(y), GV::Syn(x)])));
+                continue;
+            }
+        }
         // focused sequence: look an edge up mutably, insert a new edge right before it, look it up again
         if nodes >= 3 && rng.chance(4) {
             let a = src(rng);
